@@ -185,7 +185,30 @@ Definition ack_reserved (r : round) : bool :=
                       else true
                     | None => true
                     end) (r_outs r).
-Definition mon_C05 (c : scfg) (h : list round) : bool := c05_scan c [] (events c h) && c05_hold c [] h && forallb ack_reserved h.
+(* C05: the server stays silent on a DISCOVER for lack of addresses only when no eligible address is left: no address of the
+   dynamic range that is a host address, is bound to nobody in the table listing before the packet (bindings and pending
+   offers that have not run out at its arrival) and is not answered for by a foreign host in this round.  prev = the listing
+   after the previous round.  Stated for clients without a binding and without a reservation (C03 has those). *)
+Definition snap_taken (snap : list snap_entry) (t : Z) (a : N) : bool :=
+  existsb (fun e => (sn_ip e =? a) && (sn_perm e || (t <=? sn_until e)%Z)) snap.
+Fixpoint c05_silence (c : scfg) (prev : list snap_entry) (h : list round) : bool :=
+  match h with
+  | [] => true
+  | r :: rest =>
+    (match parse_in (r_pkt r), r_outs r with
+     | Some i, [] =>
+       let m := pi_msg i in let o := pi_opt i in
+       if (o_msgtype o =? 1) && (pi_dst i =? bcast_ip) && is_none (o_sid o) && negb (bytes_eqb (d_chaddr m) (c_self_mac c)) &&
+          is_none (reserved_ip c (d_chaddr m)) && is_none (snap_bound prev (r_t r) (get_duid c (d_chaddr m) (o_cid o))) &&
+          negb (dynamic_disabled (c_db c))
+       then negb (existsb (fun a => uip_valid a && negb (snap_taken prev (r_t r) a) && negb (foreign_answer r (d_chaddr m) a))
+                          (dyn_addresses (c_db c)))
+       else true
+     | _, _ => true
+     end) && c05_silence c (if r_has_snap r then r_snap r else prev) rest
+  end.
+Definition mon_C05 (c : scfg) (h : list round) : bool :=
+  c05_scan c [] (events c h) && c05_hold c [] h && forallb ack_reserved h && c05_silence c (snap_of 0%Z (initial_table c)) h.
 
 (* C06: envelope of every reply *)
 Definition c06_round (c : scfg) (r : round) : bool :=
